@@ -706,6 +706,20 @@ pub fn classify(prop: &str, total: &WorkerOut, make_replay: &dyn Fn(&VRec) -> Op
         if v.prop != prop {
             continue;
         }
+        // C16 `return|a+b`: several calls with unexplained results; known if each of them is a listed finding
+        let parts_known = v.prop == "C16" && v.sig.starts_with("return|") && v.sig.contains('+') && v.sig["return|".len()..].split('+').all(|p| is_known(&known, "C16", &format!("return|{p}")).is_some());
+        if parts_known {
+            for p in v.sig["return|".len()..].split('+') {
+                if let Some(k) = is_known(&known, "C16", &format!("return|{p}")) {
+                    let line = format!("KNOWN-FINDING: property={} sig={} :: {}", v.prop, k.sig, k.what);
+                    if printed.insert(line.clone()) {
+                        println!("{line}");
+                    }
+                }
+            }
+            known_seen.push(format!("{} (seen {} times)", v.sig, v.count));
+            continue;
+        }
         if let Some(k) = is_known(&known, &v.prop, &v.sig) {
             let line = format!("KNOWN-FINDING: property={} sig={} :: {}", v.prop, k.sig, k.what);
             if printed.insert(line.clone()) {
@@ -772,7 +786,8 @@ pub fn check_hist(prop: &str, thorough: bool) -> i32 {
         exit = 1;
     }
     let wall = t0.elapsed().as_secs_f64();
-    write_evidence(&spec, base, &total, wall, n_viol, &known_seen, json!({}));
+    let extra = if total.extra.is_empty() { json!({}) } else { json!({ "fault_enumeration": total.extra }) };
+    write_evidence(&spec, base, &total, wall, n_viol, &known_seen, extra);
     println!(
         "{prop}: {} runs ({} with faults), {} operations, {} ghost faults fired, {} violations, {} known findings seen, {:.1}s",
         total.runs,
